@@ -653,7 +653,21 @@ func (x *Exec) typeAssert(st *State, fr *Frame, i *ssa.TypeAssert, set func(Valu
 	} else {
 		res = x.symbolic(st, i.AssertedType, name)
 		if p, isPtr := res.(VPtr); isPtr {
-			// a successful assertion to a pointer type may still yield a nil pointer
+			// ASSUMPTION: interfaces do not hold typed nil pointers; the message payload of a
+			// protobuf oneof wrapper (pb.X_Y{Y *Msg}) that is present is non-nil (protobuf-go decoding)
+			st.assume(Implies(okT, Not(p.Nil)))
+			x.notes["ASSUMED: interface values never hold typed nil pointers; present protobuf oneof wrappers carry a non-nil payload"] = true
+			if pt, ok := i.AssertedType.Underlying().(*types.Pointer); ok && strings.Contains(types.TypeString(pt.Elem(), nil), "/pb.") && strings.Contains(typeShort(pt.Elem()), "_") {
+				if stt, ok := pt.Elem().Underlying().(*types.Struct); ok && p.Loc != nil {
+					for fi := 0; fi < stt.NumFields(); fi++ {
+						if _, isPtrF := stt.Field(fi).Type().Underlying().(*types.Pointer); isPtrF {
+							if fv, ok := x.force(st, x.load(st, p.Loc.Sub(fi))).(VPtr); ok {
+								st.assume(Implies(okT, Not(fv.Nil)))
+							}
+						}
+					}
+				}
+			}
 			res = p
 		}
 	}
